@@ -1,5 +1,82 @@
-(* C10 — property theorems only (placeholder while the proofs are being written). *)
-From Coq Require Import ZArith List.
-From GeosV.C10 Require Import NumDefs WktDefs JsonDefs.
-Example placeholder : decimalLength17 5 = 1%Z.
-Proof. reflexivity. Qed.
+(* C10 — property theorems only. Each is closed by `exact <lemma>` and followed by Print Assumptions. *)
+From Coq Require Import ZArith List Ascii String QArith Qabs.
+From GeosV.C10 Require Import NumDefs NumProofs WktDefs WktProofs JsonDefs.
+Import ListNotations.
+Local Open Scope Z_scope.
+
+(* fixed_layout_value. to_chars_fixed (d2s.c) applied to digits m*10^e (1 <= m < 10^17) with `prec` decimals emits a string that the
+   number language reads as (-1)^neg * N * 10^E with: the exact value when no digit has to go (e >= 0 or -e <= prec); otherwise the
+   digits rounded half-even to prec decimals; in both cases within half a unit of the last requested decimal; and a minus sign only in
+   front of a non-zero value (never "-0"). *)
+Theorem C10_fixed_layout_value : forall m e sign prec, 1 <= m < 10 ^ 17 -> 0 <= prec ->
+  exists N E,
+    parse_number (to_chars_fixed m e sign prec) = Some (NVdec (sign && negb (N =? 0)) N E) /\ 0 <= N /\
+    (0 <= e \/ - e <= prec -> (dval N E == dval m e)%Q) /\
+    (e < 0 -> prec < - e -> (dval N E == dval (round_half_even m (10 ^ (- e - prec))) (- prec))%Q) /\
+    (Qabs (dval N E - dval m e) <= (1 # 2) * (10 # 1) ^ (- prec))%Q.
+Proof. exact fixed_layout_value. Qed.
+Print Assumptions C10_fixed_layout_value.
+
+(* number_grammar. Whatever the double d and the digits (k, g) handed to the layout (1 <= k < 10^17), the string of the trimmed writer
+   (WKTWriter::writeTrimmedNumber = GEOS_printDouble: fixed or exponent notation, NaN / Infinity / 0) is accepted by the number language
+   of the tokenizer and contains none of its delimiters; the same for the untrimmed std::fixed path for every bit pattern. *)
+Theorem C10_number_grammar_trimmed : forall d k g prec, 1 <= k < 10 ^ 17 -> 0 <= prec -> -1000 <= g <= 1000 ->
+  number_token (print_trimmed_sd d (k, g) prec).
+Proof. exact trimmed_number_token. Qed.
+Print Assumptions C10_number_grammar_trimmed.
+
+Theorem C10_number_grammar_untrimmed : forall bits prec, 0 <= prec -> number_token (print_untrimmed bits prec).
+Proof. exact untrimmed_number_token. Qed.
+Print Assumptions C10_number_grammar_untrimmed.
+
+(* length_bound. The trimmed writer's buffer is char[28]; the layout never emits more than 24 characters (24 is attained:
+   "-1.2345678901234567e-308"), for any precision, given at most 17 digits, a 3-digit exponent and, in fixed notation, a value in [1e-5, 1e17). *)
+Theorem C10_length_bound : forall d k g prec, 1 <= k < 10 ^ 17 -> 0 <= prec ->
+  Z.abs (g + decimalLength17 k - 1) <= 999 ->
+  (uses_fixed d = true -> -4 <= g + decimalLength17 k <= 17) ->
+  zlen (print_trimmed_sd d (k, g) prec) <= 24.
+Proof. exact trimmed_length_bound. Qed.
+Print Assumptions C10_length_bound.
+
+(* wkt_structure_roundtrip. For every well-formed geometry tree and every writer setting, the reader model applied to the writer model's
+   tokens returns exactly `expect`: the same tree with the dimensionality the writer's dropping rule yields — or rejects exactly when
+   `expect` says so. *)
+Theorem C10_wkt_structure_roundtrip : forall c g, wf g = true -> parse (print_tokens c g) = expect c g.
+Proof. exact parse_print. Qed.
+Print Assumptions C10_wkt_structure_roundtrip.
+
+(* ... and the faithful model REFUTES "every written string is accepted" in two input classes (both replayed on the implementation): *)
+Definition mixed_collection : geom :=
+  GNode KCollection [GLeaf KPoint (mkdims true false) [mkc 1 2 3 nan_bits]; GLeaf KPoint XY [mkc 1 2 nan_bits nan_bits]].
+Theorem C10_wkt_mixed_collection_refuted :
+  wf mixed_collection = true /\ parse (print_tokens (mkcfg 4 false) mixed_collection) = None.
+Proof. vm_compute. split; reflexivity. Qed.
+Print Assumptions C10_wkt_mixed_collection_refuted.
+
+Definition old3d_empty_member : geom :=
+  GNode KMultiCurve [GLeaf KLineString (mkdims true false) [mkc 1 2 3 nan_bits; mkc 4 5 6 nan_bits]; GLeaf KCircularString (mkdims true false) []].
+Theorem C10_wkt_old3d_empty_member_refuted :
+  wf old3d_empty_member = true /\ parse (print_tokens (mkcfg 4 true) old3d_empty_member) = None /\
+  exists g', parse (print_tokens (mkcfg 4 false) old3d_empty_member) = Some g'.
+Proof. vm_compute. split; [reflexivity|]. split; [reflexivity|]. eexists. reflexivity. Qed.
+Print Assumptions C10_wkt_old3d_empty_member_refuted.
+
+(* ------------------------------------------------------------------ non-vacuity *)
+Definition show (s : str) : string := string_of_list_ascii s.
+Example ex_fixed_round : show (to_chars_fixed 12345 (-3) true 1) = "-12.3"%string /\ show (to_chars_fixed 5 (-1) true 0) = "0"%string
+                         /\ show (to_chars_fixed 95 (-1) false 0) = "10"%string /\ show (to_chars_fixed 25 (-1) false 0) = "2"%string.
+Proof. vm_compute. repeat split; reflexivity. Qed.
+Example ex_trimmed : show (print_trimmed 0x3F1A36E2EB1C432D 2) = "0.0001"%string /\ show (print_trimmed 0x3F1A36E2EB1C432C 2) = "10e-5"%string
+                     /\ show (print_trimmed 0x4376345785D8A000 3) = "1e+17"%string /\ show (print_trimmed 0x4376345785D89FFF 3) = "99999999999999980"%string
+                     /\ show (print_trimmed 0xB9B90A3E33C69AC3 20) = "-1.2345678901234568e-30"%string.
+Proof. vm_compute. repeat split; reflexivity. Qed.
+Example ex_length_24 : zlen (print_trimmed 0x8008E0A3A2BC301F 20) = 24.
+Proof. vm_compute. reflexivity. Qed.
+Example ex_untrimmed : show (print_untrimmed 0x3FC3333333333333 2) = "0.15"%string /\ show (print_untrimmed 0x8000000000000000 2) = "-0.00"%string.
+Proof. vm_compute. repeat split; reflexivity. Qed.
+Example ex_roundtrip_tree :
+  let g := GNode KCollection [GNode KMultiPoint [GLeaf KPoint (mkdims true true) []; GLeaf KPoint (mkdims true true) [mkc 1 2 3 4]];
+                              GNode KCurvePolygon [GNode KCompoundCurve [GLeaf KCircularString (mkdims true true) [mkc 0 0 1 1; mkc 2 0 1 1; mkc 2 1 1 1];
+                                                                         GLeaf KLineString (mkdims true true) [mkc 2 1 1 1; mkc 0 0 1 1]]]] in
+  wf g = true /\ exists g', parse (print_tokens (mkcfg 3 false) g) = Some g' /\ hasZ g' = true /\ hasM g' = false.
+Proof. vm_compute. split; [reflexivity|]. eexists. repeat split; reflexivity. Qed.
